@@ -243,6 +243,52 @@ pub fn scenarios() -> Vec<Scn> {
     history_scn("c08/M{post x24} burst, no abort", vec![(1..=24).map(Post).collect()], Some(1), Some(2)),
     history_scn("c08/M{post x20, abort} burst", vec![(1..=20).map(Post).chain(std::iter::once(Abort)).collect()], Some(1), Some(2)),
   ];
+  // two scheduler instances: a task running on A's worker posts to B / aborts B (B's worker is idle)
+  for abort_b in [false, true] {
+    let name = format!("c08/two schedulers: a task on A's worker {} B", if abort_b { "aborts" } else { "posts to" });
+    let mut s = scn(&name, "scheduler-queue", Some(2), Some(3), move || {
+      let ran: Arc<Mutex<Vec<(u32, usize)>>> = Arc::new(Mutex::new(vec![]));
+      let r2 = ran.clone();
+      let body: Body = Box::new(move || {
+        let a = schedulers::new_thread_scheduler()();
+        let b = schedulers::new_thread_scheduler()();
+        let (b2, r3) = (b.clone(), r2.clone());
+        a.post(move || {
+          r3.lock().unwrap().push((1, rxverif_rt::tid()));
+          if abort_b {
+            b2.abort();
+          } else {
+            let r4 = r3.clone();
+            b2.post(move || r4.lock().unwrap().push((2, rxverif_rt::tid())));
+          }
+        });
+        // let both workers come to rest, then end what has to be ended by hand
+        thread::sleep(ms(5));
+        a.abort();
+        if !abort_b {
+          b.abort();
+        }
+      });
+      let check: Check = Box::new(move |e: &ExecEnd| {
+        let mut v = base_violations(e, &[]);
+        let r = ran.lock().unwrap().clone();
+        if !r.iter().any(|x| x.0 == 1) {
+          v.push(viol("lost-wakeup-task-never-ran", format!("task 1 (posted to A, no abort pending) never ran: {:?}", r)));
+        }
+        if !abort_b && !r.iter().any(|x| x.0 == 2) {
+          v.push(viol("lost-wakeup-task-never-ran", format!("task 2 (posted to B from A's worker, no abort pending) never ran: {:?}; threads {}", r, thread_summary(e))));
+        }
+        let live = unfinished_threads(e);
+        if !live.is_empty() {
+          v.push(viol("worker-not-exited-after-abort", format!("threads {:?} have not exited although both schedulers were aborted; {}", live, thread_summary(e))));
+        }
+        Verdict { outcome: format!("{:?} | {}", r, thread_summary(e)), violations: v }
+      });
+      (body, check)
+    });
+    s.min_conflicts = 1;
+    v.push(s);
+  }
   // the default scheduler runs the task synchronously inside post
   v.push({
     let mut s = scn("c08/default scheduler is synchronous", "default-scheduler", Some(1), Some(1), || {
